@@ -417,7 +417,19 @@ type target struct {
 }
 
 type harness struct {
-	c *core.Ctx
+	c       *core.Ctx
+	sampled map[string]bool
+}
+
+// sample keeps one real case per (stream kind, outcome class) for the evidence.
+func (h *harness) sample(kind, outcome string, tg *target, args []interface{}) {
+	k := kind + ":" + outcome
+	if h.sampled[k] {
+		return
+	}
+	h.sampled[k] = true
+	ret, err, _, _, _ := callAdapter(tg, args)
+	h.c.Sample(k, map[string]interface{}{"function": tg.name, "args": showArgs(args), "result": show(ret), "error": fmt.Sprint(err), "outcome": outcome})
 }
 
 func show(v interface{}) string {
@@ -662,12 +674,12 @@ func argsOf(vec []int) []interface{} {
 
 // Run is the check.
 func Run(c *core.Ctx) {
-	h := &harness{c}
+	h := &harness{c: c, sampled: map[string]bool{}}
 	c.Note("rule", "stdlib.ECALFunctionAdapter around every generated stdlib entry (stdlib.GetStdlibSymbols; reference: the Go math function called directly) and around the synthetic Go functions of funcs.go (identity for all 13 numeric kinds and 5 named numeric types, 0..4 mixed parameters, interface{}/[]interface{}/map/string/bool/error/Stringer parameters, variadic, 0..3 results incl. interface-wrapped numbers, (T, error), 9 panicking functions, 6 plugin-style functions through the AddStdlibPluginFunc shape) x all argument vectors of length 0..3 over a 20-value universe (exhaustive) + random vectors of length 4..5; identity functions x 69 boundary numbers; the same functions called from ECAL source (c19.name(u1,u2) / math.name(...)) for all vectors of length 0..2 + random longer ones, compared with the direct adapter call. "+
 		"Reference: arity and Go assignability decide whether an error is demanded; numbers for numeric parameters are converted with Go's T(x) (no verdict when Go leaves T(x) undefined or an argument is NULL); results are the direct call's results with integers/floats as float64. "+
 		"Non-trivial = distinct (function, argument vector) pairs with a definite expectation that was met (result equal to the direct call, Go error delivered, error for an ill-formed call). Math order/exponent arguments beyond +-1000 for jn/yn/pow10/ldexp/inf are skipped.")
 	ts := targets()
-	c.Event("functions.bridged", int64(len(ts)))
+	c.Note("functions", fmt.Sprintf("%d bridged functions (generated stdlib + synthetic)", len(ts)))
 	U := len(universe)
 	n3 := vecCount(U, 3)
 	n4 := c.Pick(1500, 20000)
@@ -686,10 +698,7 @@ func Run(c *core.Ctx) {
 			c.Take(stream, i)
 			o := h.judge(stream, i, tg, args)
 			outcome[o]++
-			if i%3001 == 7 {
-				ret, err, _, _, _ := callAdapter(tg, args)
-				c.Sample(tg.class, map[string]interface{}{"function": tg.name, "args": showArgs(args), "result": show(ret), "error": fmt.Sprint(err), "outcome": o})
-			}
+			h.sample("adapter", o, tg, args)
 		}
 		stream = "adapter45-" + tg.name
 		for i := 0; i < n4; i++ {
@@ -706,7 +715,9 @@ func Run(c *core.Ctx) {
 				continue
 			}
 			c.Take(stream, i)
-			outcome[h.judge(stream, i, tg, args)]++
+			o := h.judge(stream, i, tg, args)
+			outcome[o]++
+			h.sample("adapter45", o, tg, args)
 		}
 		if tg.gofn.IsValid() {
 			stream = "wellformed-" + tg.name
@@ -719,7 +730,9 @@ func Run(c *core.Ctx) {
 					continue
 				}
 				c.Take(stream, i)
-				outcome["wellformed:"+h.judge(stream, i, tg, args)]++
+				o := h.judge(stream, i, tg, args)
+				outcome["wellformed:"+o]++
+				h.sample("wellformed", o, tg, args)
 			}
 		}
 		if tg.class == "identity" || tg.gofn.IsValid() && tg.gofn.Type().NumIn() == 1 && isNumericKind(tg.gofn.Type().In(0).Kind()) {
@@ -730,7 +743,9 @@ func Run(c *core.Ctx) {
 					continue
 				}
 				c.Take(stream, i)
-				outcome["numbers:"+h.judge(stream, i, tg, args)]++
+				o := h.judge(stream, i, tg, args)
+				outcome["numbers:"+o]++
+				h.sample("numbers", o, tg, args)
 			}
 		}
 	}
